@@ -610,28 +610,36 @@ impl Names {
 /// dense redundant layouts over two namespaces: every element declares a random subset of
 /// {default, p, q} x {A, B} (and sometimes xmlns=""), names and attributes live in A / B
 fn dense_layout(rng: &mut Rng, depth: usize) -> ANode {
+    // two densities: many declarations / few attributes, and few declarations / many attributes (runs of
+    // declaration-free elements that carry attributes)
+    let sparse = rng.bool();
+    dense_layout_with(rng, depth, sparse)
+}
+
+fn dense_layout_with(rng: &mut Rng, depth: usize, sparse: bool) -> ANode {
+    let (decl_n, decl_d, attr_n, attr_d) = if sparse { (1, 5, 2, 3) } else { (2, 5, 1, 3) };
     let uris = [gen::NS_A, gen::NS_B];
     let mut e = ANode::elem(QName::new(uris[rng.below(2)], *rng.pick(&["a", "b", "c"])));
     if rng.chance(1, 6) {
         e.name.ns = String::new();
     }
     for p in ["", "p", "q"] {
-        if rng.chance(2, 5) {
+        if rng.chance(decl_n, decl_d) {
             let u = if p.is_empty() && rng.chance(1, 6) { "" } else { uris[rng.below(2)] };
             e.decls.push((p.to_string(), u.to_string()));
         }
     }
     rng.shuffle(&mut e.decls);
     for k in ["k", "l"] {
-        if rng.chance(1, 3) {
+        if rng.chance(attr_n, attr_d) {
             let ns = if rng.chance(1, 4) { "" } else { uris[rng.below(2)] };
             e.attrs.push((QName::new(ns, k), "v".to_string()));
         }
     }
     if depth > 0 {
-        let n = rng.pick_weighted(&[2, 5, 2]);
+        let n = if sparse { rng.pick_weighted(&[1, 3, 3, 2]) } else { rng.pick_weighted(&[2, 5, 2]) };
         for _ in 0..n {
-            e.children.push(dense_layout(rng, depth - 1));
+            e.children.push(dense_layout_with(rng, depth - 1, sparse));
         }
     }
     e
@@ -653,6 +661,12 @@ fn c15_forced() -> Vec<ANode> {
         e("urn:A", "doc").with_decl("", "urn:A").with_children(vec![e("urn:A", "a").with_decl("", "urn:A").with_decl("p", "urn:A").with_children(vec![e("urn:A", "b").with_attr(QName::new("urn:A", "k"), "v")])]),
         // alias for the default namespace, default undeclared further down
         e("urn:A", "a").with_decl("", "urn:A").with_children(vec![e("urn:A", "b").with_decl("q", "urn:A").with_children(vec![e("", "c").with_decl("", "").with_children(vec![e("urn:A", "d")])])]),
+        // an alias used only by an attribute on a declaration-free element, followed by a nested redundant default
+        // over several attribute-bearing, declaration-free elements
+        e("urn:A", "r").with_decl("", "urn:A").with_children(vec![e("urn:A", "c").with_decl("p", "urn:A").with_children(vec![
+            e("urn:A", "a").with_attr(QName::new("urn:A", "x"), "1"),
+            e("urn:A", "s").with_decl("", "urn:A").with_children(vec![e("urn:A", "b").with_attr(QName::plain("y"), "1"), e("urn:A", "b").with_attr(QName::plain("y"), "2"), e("urn:A", "b").with_attr(QName::plain("y"), "3")]),
+        ])]),
         // default namespaces interleaved with prefixed ones
         e("urn:A", "r").with_decl("", "urn:A").with_decl("p", "urn:B").with_children(vec![e("urn:B", "e").with_decl("", "urn:B").with_children(vec![e("urn:A", "f").with_decl("", "urn:A").with_decl("q", "urn:B").with_attr(QName::new("urn:B", "k"), "v")])]),
     ]
